@@ -275,6 +275,15 @@ theorem findName_no_fault (s : Ssi) (ht : s.Terminated) (hc : s.NoAliasChain) (k
     · exact absurd hf h2
     · exact absurd hf h3
 
+/-- non-vacuity of `findName_no_fault`: both conditions hold for EVERY index `Write` produces from keys whose alias
+    targets are registered (and then for each of its truncations the first one still holds for the fields that remain
+    readable: a field that no longer fits the file is a short read, `eslEFORMAT`) -/
+theorem written_index_no_fault_conditions (ns : NewSsi) (h : ns.WF) (cur : Option Bytes) (bytes : Bytes)
+    (hw : (ns.write cur).2.2 = some bytes) (htg : ∀ a ∈ ns.skeys, ∃ k ∈ ns.pkeys, a.pkey = k.key) :
+    ∃ s, Ssi.open bytes.toArray = .ok s ∧ s.Terminated ∧ s.NoAliasChain := by
+  obtain ⟨hd, rfl⟩ := written_file ns h cur bytes hw
+  exact ⟨ns.opened, open_image h, image_terminated h htg, image_noAliasChain h hd htg⟩
+
 /-- `esl_ssi_FindNumber` on ANY index, for every `int64_t`: `eslENOTFOUND` exactly outside `0..nprimary-1`; inside,
     the record in that slot or `eslEFORMAT` when the file ends first (`eslEMEM` for a zero-width key field) -/
 theorem findNumber_any_index (s : Ssi) (i : Int) (hlo : -(2:Int)^63 ≤ i) (hhi : i < (2:Int)^63) (hn : s.nprimary < 2^63) :
@@ -296,6 +305,22 @@ theorem findSubseq_any_index (s : Ssi) (key : Bytes) (start : Int) (e : St) (h :
     (e = .fault ∧ ∃ hit, s.findName key = .ok hit ∧
       (s.files[hit.fh]? = none ∨ ∃ f, s.files[hit.fh]? = some f ∧ f.flags % 2 = 1 ∧ f.rpl = 0)) :=
   findSubseq_status s key start e h
+
+/-! ## `esl_newssi_AddFile` and duplicate names -/
+
+/-- `AddFile` never looks at the names already registered ("Caller should make sure that the same file isn't registered
+    twice; this function doesn't check"): below the limit of 32767 files it ALWAYS succeeds, hands out the next handle,
+    appends one record holding the name without its directory, and widens `flen` to the FULL name's length + 1.
+    Registering the same name twice therefore gives two handles and two identical records (`fileInfo_spec` reports both). -/
+theorem addFile_never_checks_names (ns : NewSsi) (name : Bytes) (fmt : Nat) :
+    ns.addFile name fmt =
+      if ns.files.length ≥ 32767 then .error .erange
+      else .ok ({ ns with flen := if name.length + 1 > ns.flen then name.length + 1 else ns.flen,
+                          files := ns.files ++ [{ name := fileTail name, fmt := fmt, bpl := 0, rpl := 0 }] },
+                ns.files.length) := rfl
+
+example : ((({} : NewSsi).addFile [102] 1).toOption.bind (fun r => (r.1.addFile [102] 1).toOption)).map (fun r => (r.2, r.1.files.length))
+    = some (1, 2) := by decide
 
 /-! ## internal sort = external sort, for every insertion history -/
 
